@@ -50,6 +50,21 @@ CLAIMED = {
              'binding by name is the same code path as in real chains and is not separately modelled',
         technique='Coq proof (relational agreement of inputs, congruence of run) + differential correspondence via vm_compute',
         ref='DESIGN.md section 5, C19'),
+    'C20': dict(
+        category='proof',
+        text='Theorems about the copy loop over the paired name-mode / parameter-mode tasks: every result that exists in '
+             'name mode has a result at its key location afterwards, with identical content when the location was free; a '
+             'task without a result gets nothing; every source entry exists afterwards unchanged and whatever is new in the '
+             'source is a directory; dry=True writes no result files; nothing in the target is ever changed or removed and an '
+             'occupied key location is skipped. The pairing (name-mode chain with sharing by (task, config file), '
+             'parameter-mode chain, lookup by full name) is part of the model and tied to the code by differential runs: '
+             'file-based pipelines, random subsets computed in name mode, dry/real/repeated migrations, SHA-256 of both '
+             'trees after each, then has_data/values/run log of the new chain.',
+        note='known finding K3 (open): has_data creates empty task directories in the SOURCE tree, so "never modified" holds '
+             'for existing entries only (refuted example in the file); loop-level idempotence is proved per step and checked '
+             'as a whole by the correspondence; directory-type data are not in the correspondence yet',
+        technique='Coq proof (fold invariants over two stores) + differential correspondence via vm_compute',
+        ref='DESIGN.md section 5, C20'),
     'C02': dict(
         category='proof',
         text='Theorems that the key text (hence the location, C12) is invariant under: permuting parameter declarations, '
